@@ -293,6 +293,7 @@ def binding(ctx, exe):
     rnd = random.Random(ctx.seed)
     # 2. spec -> code: TLC-enumerated programs and call sequences executed on the real class
     small = join_gen(ctx.tlc_gen(SPEC, "Gen_Hfsm.tla", "Gen_small.cfg", timeout=600))
+    small.sort(key=lambda b: json.dumps(b, sort_keys=True))     # TLC's output order depends on worker scheduling
     total = len(small)
     if ctx.quick() and len(small) > 4000:
         small = rnd.sample(small, 4000)
@@ -300,9 +301,9 @@ def binding(ctx, exe):
     ctx.sample({"kind": "TLC-enumerated program + call sequence executed on the real StateMachine", "calls": small[0]["calls"],
                 "program": small[0]["p"]})
     validate(ctx, exe, small, "gen_small", "TLC-enumerated programs/call sequences", replays=True)
-    sim = gen_walks(ctx, "Gen_sim.cfg", 600 if ctx.quick() else 8000, 30)
+    sim = gen_walks(ctx, "Gen_sim.cfg", 120 if ctx.quick() else 1600, 30)[:600 if ctx.quick() else 8000]   # about 5 walks per num
     validate(ctx, exe, sim, "gen_sim", "TLC-simulated long call sequences (family nest)", replays=True)
-    ren = gen_walks(ctx, "Gen_reent.cfg", 300 if ctx.quick() else 3000, 14)
+    ren = gen_walks(ctx, "Gen_reent.cfg", 60 if ctx.quick() else 600, 14)[:300 if ctx.quick() else 3000]
     validate(ctx, exe, ren, "gen_reent", "TLC-simulated call sequences with re-entrant attempts (family reent)", replays=True)
     # 3. code -> spec: seeded random programs, deeper and larger than the families
     nprog, ncalls = (700, 36) if ctx.quick() else (8000, 60)
